@@ -7,7 +7,7 @@ ROOT = os.path.dirname(os.path.dirname(os.path.abspath(__file__)))
 ORACLE = "independent rules oracle (crate chess_oracle, validated against published perft counts)"
 CHECKS = {
  "C01": ("exploration", "reference-model monitor: engine move lists vs independent rules oracle over generated games and exhaustively enumerated small families", "7/C01",
-         "Every position of ~10^4 oracle-driven games plus complete K+X v K, castling-under-attack, en-passant-discovery and promotion-target families is compared, move list against move list, with an independent implementation of the rules; coverage counters require every feature combination named in the property to have been seen. Runtime monitoring cannot give more than 'held on the positions generated'.",
+         "Every position of ~10^4 oracle-driven games plus complete K+X v K, castling-under-attack, king-among-unmoved-rooks (walked one ply further), en-passant-discovery and promotion-target families and random pin scenarios is compared, move list against move list, with an independent implementation of the rules; coverage counters require every feature combination named in the property to have been seen. Runtime monitoring cannot give more than 'held on the positions generated'.",
          "Trusted: " + ORACLE + ". Positions outside the generated set are not covered."),
  "C02": ("exploration", "reference-model monitor: shadow game in the oracle advanced in lock-step; board read square-by-square through a cfg hook", "7/C02",
          "The engine game and an oracle game are advanced together for up to 398 plies under nine move policies; placement, side, rights, en-passant file, king cache and exported text are compared at every ply.",
@@ -24,11 +24,11 @@ CHECKS = {
  "C12": ("exploration", "reference-model monitor for move text (in-process round trip) + trace checker over `position ... moves` / `show` transcripts of the real binary for move-shaped strings", "7/C12",
          "In-process: every legal move's text is compared with the oracle's and read back. Command level: the real binary is fed every move-shaped string that the parser maps to a move (quick) / every square pair and suffix (thorough) for positions with en-passant, castling and promotion features and the displayed state is compared with the oracle's successor.",
          "Trusted: " + ORACLE + "; the `show` output is parsed by the monitor."),
- "C16": ("exploration", "reference-model monitor: score vs independent piece-square sum (both king tables) + colour-mirrored lock-step game", "7/C16",
-         "Score compared at every position of games that mix text import, push_history and push/pop and cross the endgame threshold; a mirrored game must score exactly the negation.",
+ "C16": ("exploration", "reference-model monitor: score vs independent piece-square sum (both king tables) + colour-mirrored lock-step game + probes of copies of the game", "7/C16",
+         "Score compared at every position of games that mix text import, push_history and push/pop and cross the endgame threshold; a mirrored game must score exactly the negation; copies of the game (what the search works on) are probed with move generation and play/take-back of every king move.",
          "Trusted: table orientation pinned in the oracle; table values are read from /repo/src/chess/scores.rs as data."),
  "C20": ("exploration", "reference-model monitor: Display/`show` output parsed (hash, FEN, diagram, move record) and compared with the oracle's account of the game", "7/C20",
-         "Every game's display and move record are parsed and compared token by token with what was played; coverage minima require all four promotion pieces with and without capture, both castlings and en passant.",
+         "Every game's display and move record are parsed and compared token by token with what was played (in-process and through `position (fen|startpos) [moves]; show` on the binary, also right after another `position` command); coverage minima require all four promotion pieces with and without capture, both castlings and en passant.",
          "Trusted: " + ORACLE + "; token grammar of the move record as described in DESIGN.md."),
 }
 
@@ -37,7 +37,7 @@ CHECKS.update({
          "Every observable the property names (FEN, hash, score, king squares, length, both move lists, board) is compared before and after get_moves/fen/Display, after push+pop of every move of both lists including unchecked king captures, and at every unwind level of nested walks of depth 2-6, on text-imported endgames and on positions inside games that cross the endgame threshold.",
          "No oracle beyond equality of the engine's own observables; positions outside the generated set are not covered."),
  "C06": ("exploration", "history monitor: search histories over one shared table, announced move checked against the oracle; UCI transcripts of the real binary", "7/C06",
-         "Thousands of driver calls inside histories that share one transposition table (same game in playing order, siblings, text twins differing only in rights/ep, shallower-after-deeper limits, stops, resets); every announced move is checked for legality by the independent oracle, in-process and through `bestmove` lines of the binary.",
+         "Thousands of driver calls inside histories that share one transposition table (same game in playing order, siblings, text twins differing only in rights/ep, state twins with neighbouring rights codes with and without an en-passant square, shallower-after-deeper limits, stops, resets); every announced move is checked for legality by the independent oracle, in-process and through `bestmove` lines of the binary.",
          "Trusted: " + ORACLE + ". A hash collision between two generated roots would be needed for a wrong cached move; not forced here."),
  "C07": ("fault_enumeration", "fault injection: the stop flag is flipped by a cfg hook at every node-entry poll index of small searches (stratified beyond), result checked against the oracle; UCI go+stop with the search-thread start delayed", "7/C07",
          "For searches of depth 1-3 whose undisturbed run has at most ~1200 (quick) / 4000 (thorough) polls EVERY stop point is tried; larger searches use a ladder of stop points. After every fifth stop point all positions one move further are searched on the table the interrupted search left behind. The verdict is on poll counts (logical time), never wall-clock.",
@@ -49,16 +49,16 @@ CHECKS.update({
          "Thousands of (root, depth 1-4, fresh/pre-filled history) cases; the reference has no windows, ordering or table. Scores compared after clamping the mate range; skipped cases are counted by reason.",
          "The reference shares generator and evaluation with the engine by construction; cases over the node budget are not judged."),
  "C10": ("exploration", "solver-backed monitor: mates in one/two found by the oracle's own solver, engine answers checked; dead roots must give no move; UCI `bestmove none` only on dead roots", "7/C10",
-         "Positions from check-biased games and K+Q/K+R v K families are classified by an independent solver; mate-in-one roots are searched at limits 3-6 and unlimited, mate-in-two roots at 5-7 and unlimited (the move must keep a forced mate), dead roots at 1-5.",
+         "Positions from check-biased games, K+Q/K+R v K families, minor-piece endings and every K + pawn-on-the-seventh v K position (mates by promotion, some by under-promotion only) are classified by an independent solver; mate-in-one roots are searched at limits 3-6 and unlimited, mate-in-two roots at 5-7 and unlimited (the move must keep a forced mate), dead roots at 1-5.",
          "'Keeps the forced mate' is decided by a bounded solver (mate within four further moves, 3M nodes); undecided cases are counted, not judged. Trusted: " + ORACLE),
  "C13": ("exploration", "trace checker over `go` transcripts of the real binary: the printed budget decides; wall-clock only as reproduced tiebreak", "7/C13",
-         "Thousands of clock/increment/movetime combinations incl. the whole underflow band and boundary values, both sides to move, release and debug-assertions binaries; the `info time` value must be a finite non-negative integer not above the time available; short budgets are also waited for.",
+         "Thousands of clock/increment/movetime combinations incl. the whole underflow band and boundary values, both sides to move, release and debug-assertions binaries, every fourth case with another standard `go` parameter (ponder, searchmoves, movestogo, nodes, mate) around the limits; the `info time` value must be a finite non-negative integer not above the time available; short budgets are also waited for.",
          "`go` with clocks but no increments computes no budget (outside the quantifier)."),
  "C14": ("fault_enumeration", "trace checker: sequential session model replayed over the stdin/stdout history of the real binary; delays injected at five named schedule points (cfg hooks); lost stops decided on hook event order", "7/C14",
          "Directed scenarios for every ordering named in the property x delays {0,2,20,150} ms, plus random scripts with the GUI pattern (next position+go the moment bestmove is received), 16 sessions in parallel; exactly-once bestmove, whole-line protocol tokens, readyok during search, no panic, exit 0. The evidence lists the distinct orders in which the three threads were actually observed to pass the hook points (44 in a quick run).",
          "Interleavings explored = those reachable by stretching the five named points (+ OS noise); absence of output counts only when reproduced in an isolated re-run."),
- "C15": ("exploration", "debug-assertions (unsafe-precondition) build + capacity gauges (cfg hooks abort before an unchecked push at capacity) under boundary-seeking workloads; Miri on small workloads in thorough", "7/C15",
-         "Hill-climb to maximal mobility over reader-accepted positions, 398-ply games followed by searches to the depth cap, the real self-play loop with deterministic per-move poll budgets and on the binary, every accepted mutant FEN, over-long game records (up to 1000 plies, also followed by an illegal move) and 61k hostile move strings on the debug-assertions binary; high-water marks of both unchecked buffers are reported.",
+ "C15": ("exploration", "debug-assertions (unsafe-precondition) build + capacity gauges (cfg hooks abort before an unchecked push at capacity) under boundary-seeking workloads; Miri on small workloads and an AddressSanitizer build of the binary under UCI sessions in thorough", "7/C15",
+         "Hill-climb to maximal mobility over reader-accepted positions, 398-ply games followed by searches to the depth cap, the real self-play loop with deterministic per-move poll budgets and on the binary, every accepted mutant FEN, over-long game records (up to 1000 plies, also followed by an illegal move), long records followed by 150-260 searches without a new position, and 61k hostile move strings on the debug-assertions binary; high-water marks of both unchecked buffers are reported.",
          "ASan/valgrind are blind to these intra-object overflows (measured); the checked build and the gauges are the detectors."),
  "C17": ("exploration", "classification monitor: mutated FEN strings classified by a strict independent grammar (must-accept / must-reject / don't-care), reader outcome compared; panics caught in worker subprocesses; command level on the real binary", "7/C17",
          "Hundreds of thousands of strings from 21 mutation operators over all fields of well-formed renderings (4-6 fields, both en-passant conventions); must-accept strings must import as exactly the described position with its legal moves, must-reject strings must be refused, nothing may crash; release and debug-assertions builds.",
@@ -67,7 +67,7 @@ CHECKS.update({
          "All PV lines printed during the C06-style shared-table histories (in-process workers and UCI sessions) are replayed from their root through the independent rules.",
          "Trusted: " + ORACLE),
  "C19": ("exploration", "differential monitor: byte equality of complete stdout transcripts of the real binary across perturbed runs (taskset, nice, ASLR off, padded environment, delays, 16-way load, pre-history + ucinewgame)", "7/C19",
-         "Each (root, depth) reference transcript is compared with a dozen perturbed runs including the segment after `ucinewgame` following arbitrary, related, timed and interrupted (`go infinite` still running) pre-histories; a fixed-depth `go` must not arm a timer (transcript + hook event log).",
+         "Each (root, depth) reference transcript is compared with a dozen perturbed runs including the segment after `ucinewgame` following arbitrary, related, timed and interrupted (`go infinite` still running) pre-histories and after a `ucinewgame` sent the moment `bestmove` is read; a fixed-depth `go` must not arm a timer (transcript + hook event log).",
          "Hardware and allocator cannot be varied in this sandbox."),
 })
 
